@@ -4055,8 +4055,16 @@ class NetCDFWrite(IOWrite):
             # (CF>=1.8)
             groups = self.implementation.nc_get_group_attributes(f)
             if groups:
-                omit = tuple(omit)
-                omit += tuple(groups)
+                # A group attribute with a value of its own is
+                # written in addition to the property, which stays
+                # on the data variable (also when the property is a
+                # global attribute, which the group attribute hides)
+                omit = tuple(
+                    attr for attr in omit if groups.get(attr) is None
+                )
+                omit += tuple(
+                    attr for attr, value in groups.items() if value is None
+                )
 
         if domain:
             # Include the dimensions attribute on domain
